@@ -389,7 +389,7 @@ def run_both(prop, cases):
 # ----------------------------------------------------------------------------- step 5: shrink
 
 # top-level positions that hold oracle tables (tabulated answers of Qt): never shrunk
-PROTECT = {"sock": {2}, "sockl": {2}, "socknet": {2}, "srv": {2}, "srvm": {2}, "fs": {0, 1, 4}, "fsm": {0, 1, 3}, "bauth": {3}, "bauthm": {2}, "slot": {2}, "slotm": {2}, "proxy": {5}}
+PROTECT = {"sock": {2}, "sockl": {2}, "socklate": {2}, "socknet": {2}, "srv": {2}, "srvm": {2}, "fs": {0, 1, 4}, "fsm": {0, 1, 3}, "bauth": {3}, "bauthm": {2}, "slot": {2}, "slotm": {2}, "proxy": {5}}
 
 
 def candidates(v, protect=frozenset()):
@@ -606,7 +606,7 @@ def main():
     seen_keys = set()
     for c, r in fails[:3]:
         fam, _, val = c.partition(" ")
-        small = shrink(prop, fam, vlib.dec(val), lambda x: x["ci"] != "1" and x["cm"] == "1" and x["model"] != BAD)
+        small = shrink(prop, fam, vlib.dec(val), lambda x: x["ci"] != "1" and x["cm"] == "1" and x["model"] != BAD and x["impl"] != BAD)
         c2 = fam + " " + vlib.enc(small)
         if c2 in seen_keys:
             continue
@@ -625,12 +625,12 @@ def main():
                 if len(neigh) >= 400:
                     break
             for c3, r3 in zip(neigh, run_both(prop, neigh)):
-                if r3["ci"] != "1" and r3["cm"] == "1" and r3["model"] != BAD:
+                if r3["ci"] != "1" and r3["cm"] == "1" and r3["model"] != BAD and r3["impl"] != BAD:
                     found = (c3, r3)
                     break
             if found:
                 fam3, _, val3 = found[0].partition(" ")
-                small = shrink(prop, fam3, vlib.dec(val3), lambda x: x["ci"] != "1" and x["cm"] == "1" and x["model"] != BAD)
+                small = shrink(prop, fam3, vlib.dec(val3), lambda x: x["ci"] != "1" and x["cm"] == "1" and x["model"] != BAD and x["impl"] != BAD)
                 c2 = fam3 + " " + vlib.enc(small)
                 report("spec-violated-on-implementation", c2, run_both(prop, [c2])[0])
             else:
